@@ -181,7 +181,7 @@ void Sched::viol(const char *cls, const char *fmt, ...)
         if (*p == '\t' || *p == '\n') *p = ' ';
     violated_ = true;
     if (violCount_++ < 2)
-        vsim::hist("VIOL\t%s\t%s\trep=%d step=%llu task=%d: %s", spec_ ? spec_->id.c_str() : "?", cls, spec_ ? spec_->rep : 0,
+        vsim::hist("VIOL\t%s\t%s%s\trep=%d step=%llu task=%d: %s", spec_ ? spec_->id.c_str() : "?", classPrefix_.c_str(), cls, spec_ ? spec_->rep : 0,
                    static_cast<unsigned long long>(steps_), cur_, b);
 }
 
@@ -446,6 +446,7 @@ static int runCases(const std::vector<std::string> &args)
             spec.rep = rep;
             g_curRep = rep;
             Harness *h = it->second();
+            sched.setClassPrefix("");
             h->setup(spec, sched);
             const CaseResult r = sched.run(spec, *h);
             if (!r.violated)
